@@ -136,6 +136,12 @@ def run(rep, tier, rng):
             frames.append(dict(docs=docs[:2]))
         nontriv = any(any(t in gen.render(d)[1:] for t in ('!del', '!force', '!weak', '[')) for d in docs)
         rep.case('\n'.join(gen.render(d) for d in docs) + repr(keys), nontriv, sample=dict(docs=[gen.render(d) for d in docs], wrap_keys=keys))
+    # list operators at the top level under keys that contain path metacharacters (a single path component must never be re-parsed as a textual path)
+    from ..reparse import parse_doc
+    for a, b in (("{'lr-steps': [1, 2], 'a.b': [1, 2], a: {b: [5]}, 'x[0]': [0]}", "{'lr-steps': !extend [3], 'a.b': !extend [3], 'x[0]': !append [1]}"),
+                 ("{'m-n': {k: [1]}}", "{'m-n': {k: !append [2]}}"), ("{'p.q': [1]}", "{'p.q': !append [2], r: !extend [3]}")):
+        for keys in (['w'], ['outer', 'inner']):
+            wraps.append(dict(docs=[parse_doc(a), parse_doc(b)], keys=keys))
     show = lambda c: {k: ([gen.render(d) for d in v] if k == 'docs' else ([gen.render(e) if e else None for e in v] if k == 'extra' else v)) for k, v in c.items()}
     base.run_oracle(rep, 'C05', 'wrapped vs unwrapped build', wraps, judge_wrap, show=show)
     base.run_oracle(rep, 'C05', 'sibling independence', sibs, judge_sibling, show=show)
